@@ -22,7 +22,30 @@ typedef struct
     int (*des)(void*, const uint8_t*, size_t*);
     void (*corrupt)(void*, unsigned, unsigned);
     unsigned n_corrupt;
+    void (*scribble)(void*, unsigned, unsigned);
+    unsigned n_scribble;
 } vt_t;
+
+/* "any object contents": one scalar leaf (never a bool) gets an extreme or arbitrary bit pattern; the object stays a
+ * valid C object (counts and tags in range), so it may be serialised: success or a documented error, never UB */
+static void scrib(void* p, size_t n, unsigned v)
+{
+    unsigned char* q = (unsigned char*) p;
+    if (n == 0) { return; }
+    switch (v & 7u)
+    {
+    case 0: memset(q, 0xFF, n); break;                                  /* -1 / UINT_MAX / NaN */
+    case 1: memset(q, 0, n); q[n - 1] = 0x80; break;                    /* INT_MIN / -0.0 (little-endian host) */
+    case 2: memset(q, 0xFF, n); q[n - 1] = 0x7F; break;                 /* INT_MAX / NaN */
+    case 3: memset(q, 0, n); q[n - 1] = 0x7F; if (n > 1) { q[n - 2] = (n == 8) ? 0xF0 : 0x80; } break; /* +inf */
+    case 4: memset(q, 0, n); q[n - 1] = 0xFF; if (n > 1) { q[n - 2] = (n == 8) ? 0xF0 : 0x80; } break; /* -inf */
+    case 5: memset(q, 0, n); q[n - 1] = 0x7F; if (n > 1) { q[n - 2] = 0x7F; } break; /* huge finite float */
+    case 6: memset(q, 0, n); q[0] = 1; break;                           /* 1 / smallest subnormal */
+    default:
+        for (size_t i = 0; i < n; i++) { v = v * 1103515245u + 12345u; q[i] = (unsigned char) (v >> 16); }
+        break;
+    }
+}
 
 #include "types_c.inc"
 
@@ -35,7 +58,7 @@ typedef struct { void* obj; int state; } slot_t;
 
 static slot_t SLOTS[N_TYPES][K_SLOTS];
 static unsigned long n_ops, n_des_ok, n_des_err, n_ser_ok, n_ser_err, n_ser_skipped, n_reused_decodes, n_poisoned_decodes,
-    n_corrupt_ser, n_decode_after_failed, n_decode_into_longer, n_ser_small_cap, n_union_switch;
+    n_corrupt_ser, n_decode_after_failed, n_decode_into_longer, n_ser_small_cap, n_union_switch, n_scribbled;
 static unsigned long err_hist[16];
 static long          op_index = -1;
 
@@ -183,6 +206,13 @@ int main(int argc, char** argv)
                 s->state = ST_CORRUPT;
             }
             break;
+        case 11:
+            if (t->n_scribble > 0 && s->state == ST_VALID)
+            {
+                t->scribble(s->obj, (arg >> 16) & 0xFFFFu, arg & 0xFFFFu);
+                n_scribbled++;
+            }
+            break;
         case 6: /* copy from another slot of the same type (plain struct assignment by memcpy) */
         {
             slot_t* o = &SLOTS[ti % N_TYPES][arg % K_SLOTS];
@@ -196,9 +226,9 @@ int main(int argc, char** argv)
     free(script);
     printf("STATS {\"ops\":%lu,\"des_ok\":%lu,\"des_err\":%lu,\"ser_ok\":%lu,\"ser_err\":%lu,\"ser_skipped\":%lu,\"decode_into_used_slot\":%lu,"
            "\"decode_after_failed_decode\":%lu,\"decode_into_corrupted_slot\":%lu,\"ser_of_corrupted\":%lu,\"ser_small_cap\":%lu,"
-           "\"err_bad_array_length\":%lu,\"err_bad_union_tag\":%lu,\"err_bad_delimiter_header\":%lu,\"err_buffer_too_small\":%lu,\"err_invalid_argument\":%lu}\n",
+           "\"err_bad_array_length\":%lu,\"err_bad_union_tag\":%lu,\"err_bad_delimiter_header\":%lu,\"err_buffer_too_small\":%lu,\"err_invalid_argument\":%lu,\"scalar_leaf_scribbled\":%lu}\n",
            n_ops, n_des_ok, n_des_err, n_ser_ok, n_ser_err, n_ser_skipped, n_reused_decodes, n_decode_after_failed, n_poisoned_decodes, n_corrupt_ser,
-           n_ser_small_cap, err_hist[10], err_hist[11], err_hist[12], err_hist[3], err_hist[2]);
+           n_ser_small_cap, err_hist[10], err_hist[11], err_hist[12], err_hist[3], err_hist[2], n_scribbled);
     (void) n_decode_into_longer;
     (void) n_union_switch;
     return 0;
